@@ -376,7 +376,7 @@ def run(ctx):
                           'version <= line)' % (lim,), {'kind': 'limits', 'limits': lim})
 
     # ---- stage jobs ---------------------------------------------------------------------------
-    stage_jobs = [{'kind': 'parsers', 'stage': s, 'seed': ctx.seed, 'n': k, 'tier': ctx.tier, 'alarm': 90}
+    stage_jobs = [{'kind': 'parsers', 'stage': s, 'seed': ctx.seed, 'n': k, 'tier': ctx.tier, 'alarm': 45}
                   for s, k in (('getters', n * 2), ('agent', n * 2), ('socks', n * 3), ('x11', n * 2), ('sftp_framing', n),
                                ('copy', 0), ('fuzz_imports', n * 3), ('fuzz_sftp_server', 0), ('fuzz_sftp_client', 0))]
     bj = banner_jobs(ctx, lim)
